@@ -51,6 +51,10 @@ class ConcreteProvider:
 
         return float(self._get(name, gen))
 
+    def sampled_real(self, name, sampler):
+        """a real whose concrete value is drawn by ``sampler(rng)`` (the harness adds the matching assumptions itself)"""
+        return float(self._get(name, lambda: sampler(self.rng)))
+
     def reals(self, name, n, **kw):
         return [self.real("%s_%d" % (name, i), **kw) for i in range(n)]
 
